@@ -121,6 +121,23 @@ def hostile_tables(rnd):
         yield {k: 1}
         yield {'outer': {k: 'v'}}
         yield [{k: 1}]
+    # well-known argument / header names (and every name the tree under test
+    # mentions or matches with a regular expression) x one value of every
+    # kind: a rule for one name shows only under that name, and often only
+    # for one kind of value
+    from . import magic
+    kinds = [True, 0, 1, 7, -3, 200, 70000, 2**40, 1.0, 1500.5, -0.25, 1e39,
+             float('nan'), D('1'), D('1500.5'), D('1E+3'), '10', '1.5', 'x',
+             '', bytearray(b'10'), dt(2020, 5, 17, 12), dt(2020, 5, 17, 12,
+                                                          us=500000),
+             None, [1.5], {'n': 2.5}, 2**70, -2**70, 'é' * 200]
+    names = list(gv.REAL_KEYS) + [x for x in magic.pool().novel_strs
+                                  if len(x) <= 128]
+    for j, name in enumerate(names):
+        for v in kinds:
+            yield {name: v}
+        yield {name: kinds[j % len(kinds)], 'other': 1, 'arr': [
+            {name: kinds[(j + 5) % len(kinds)]}]}
     yield {'a': {'b': [2**64, {'c': -2**64}]}}
     yield {'k' * 128 + 'a': 1, 'k' * 128 + 'b': 2}
     yield ['x', ('t',)]
